@@ -103,6 +103,9 @@ CheckKept(e) ==
       own(r) == IF e.op = "GetDevices" THEN DiscoveryOK(e.cfg, msgs, r)
                 ELSE Len(msgs) = 1 /\ ResultOK(e.op, e.a, e.cfg, msgs[1], r) IN
   /\ Judge("C04", "NoPanic", e.ret.t # "panic" /\ e.ret_later.t # "panic", e.ret_later, "no panic")
+  \* C01 at the socket, where a driver wrapper cannot look: "exactly one 64-byte request reaches the network" - also when
+  \* datagrams that are not the call's reply arrive first
+  /\ Judge("C01", "ExactlyOneRequest", e.nreq = 1, <<e.kept.path, e.nreq>>, 1)
   /\ Judge("C17", "KeptResultUnaffected", e.ret_later = e.ret, <<e.kept, e.ret_later>>, e.ret)
   /\ Judge("C03", "OnlyOwnDatagram", e.ret_later.t # "panic" /\ own(e.ret_later), <<e.kept, e.ret_later>>, e.ret)
   /\ Judge("C02", "ResultOK", e.ret.t # "panic" /\ own(e.ret), <<e.kept, e.ret>>, "the interpretation of the delivered reply")
